@@ -143,6 +143,21 @@ def wrappers_scenario():
         rec('reset(key) reads the stored value', 10, a.reset('cull_limit'))
         for x in (a, b, c):
             x.close()
+        # a FanoutCache opened again: arguments that are given replace the stored settings (the size limit divided among
+        # the shards), arguments that are not given leave them as they are stored
+        hdir = os.path.join(root, 'h')
+        h1 = diskcache.FanoutCache(hdir, shards=4, size_limit=2 ** 24, cull_limit=3, eviction_policy='least-recently-used')
+        h1.close()
+        h2 = diskcache.FanoutCache(hdir, shards=4)
+        rec('FanoutCache reopened without arguments keeps the stored settings', [2 ** 22, 3, 'least-recently-used'] * 4,
+            [x for sh in h2._shards for x in (int(sh.size_limit), sh.cull_limit, sh.eviction_policy)])
+        h2.close()
+        h3 = diskcache.FanoutCache(hdir, shards=4, size_limit=2 ** 20, cull_limit=5)
+        rec('FanoutCache reopened with size_limit= and cull_limit= uses them', [2 ** 18, 5, 'least-recently-used'] * 4,
+            [x for sh in h3._shards for x in (int(sh.size_limit), sh.cull_limit, sh.eviction_policy)])
+        h3.close()
+        rec('... and stores them', [2 ** 18, 5] * 4,
+            [x for i in range(4) for sh in [diskcache.Cache(os.path.join(hdir, '%03d' % i))] for x in (int(sh.size_limit), sh.cull_limit)])
         dj = DjangoCache(os.path.join(root, 'dj'), {'SHARDS': 4, 'DATABASE_TIMEOUT': 0.5, 'OPTIONS': {'size_limit': 2 ** 22, 'cull_limit': 7}})
         dj.set('k', 1)
         rec('DjangoCache SHARDS: shard directories', 4, len([n for n in os.listdir(dj.directory) if n.isdigit()]))
